@@ -98,6 +98,50 @@ def generated_steps(obj, x_i):
     return list(gen()), gen.step_ratio
 
 
+def run_subruns(ctx, n_sub):
+    """thorough tier: `n_sub` further runs of the engines and the search with other PRNG streams, in parallel processes; their
+    cases, mismatches, violations and known-finding hits are merged into `ctx` (obligations are the parent's)"""
+    os.makedirs(WORK, exist_ok=True)
+    procs = []
+    for j in range(1, n_sub + 1):
+        out = os.path.join(WORK, 'sub_%s_%d_%d.json' % (ctx.pid, os.getpid(), j))
+        env = dict(os.environ, VERIF_SUBRUN=out, VERIF_SEED=str(ctx.seed * 1000 + j), VERIF_TIER='thorough')
+        procs.append((j, out, subprocess.Popen([os.path.join(VERIF, 'check'), ctx.pid, '--tier', 'thorough'], env=env,
+                                               stdout=subprocess.PIPE, stderr=subprocess.STDOUT, text=True)))
+    merged = 0
+    extra_nontrivial = 0
+    for j, out, p in procs:
+        txt, _ = p.communicate()
+        if p.returncode != 0 or not os.path.exists(out):
+            raise RuntimeError('thorough sub-run %d failed (rc %s): %s' % (j, p.returncode, (txt or '')[-600:]))
+        d = json.load(open(out))
+        os.remove(out)
+        merged += 1
+        for v in d['violations']:
+            v = dict(v, subrun_seed=d['seed'])
+            sig = v.get('signature')
+            if not (sig and any(sig == k.get('signature') for k in ctx.known)) and len(ctx.violations) < 10:
+                ctx.violations.append(v)
+        for hit in d['known_hits']:
+            hit = tuple(hit)
+            if hit not in ctx.known_hits:
+                ctx.known_hits.append(hit)
+        for mm in d['mismatches']:
+            if len(ctx.mismatches) < 20:
+                ctx.mismatches.append(dict(mm, subrun_seed=d['seed']))
+        for name, st in d['engines'].items():
+            e = ctx.engine(name)
+            for k in ('cases', 'exact', 'bit_identical', 'within_ulp', 'rounded', 'mismatch', 'skipped'):
+                e[k] += st.get(k, 0)
+            for k, v in st.get('distribution', {}).items():
+                if isinstance(v, (int, float)) and isinstance(e['distribution'].get(k, 0), (int, float)):
+                    e['distribution'][k] = e['distribution'].get(k, 0) + v
+        ctx.search['evaluations'] += d['evaluations']
+        extra_nontrivial += d['nontrivial']
+    ctx.search['extra_nontrivial'] = extra_nontrivial
+    ctx.notes.append('thorough tier: %d parallel sub-runs (seeds %d..%d) merged' % (merged, ctx.seed * 1000 + 1, ctx.seed * 1000 + n_sub))
+
+
 class LeanLock:
     def __enter__(self):
         os.makedirs(os.path.join(LEAN, '.lake'), exist_ok=True)
@@ -190,13 +234,17 @@ def textual_scan():
 def run_driver(lines, tag, timeout=3000):
     """Pipe protocol lines through the Lean model driver; returns the output lines."""
     os.makedirs(WORK, exist_ok=True)
-    inp = os.path.join(WORK, 'driver_%s.in' % tag)
+    inp = os.path.join(WORK, 'driver_%s_%d.in' % (tag, os.getpid()))
     with open(inp, 'w') as f:
         for ln in lines:
             f.write(ln + '\n')
     with open(inp) as fin:
         p = subprocess.run(['lake', 'env', 'lean', '--run', 'Main.lean'], cwd=LEAN, stdin=fin,
                            capture_output=True, text=True, timeout=timeout)
+    try:
+        os.remove(inp)
+    except OSError:
+        pass
     out = p.stdout.split('\n')
     if out and out[-1] == '':
         out.pop()
@@ -306,6 +354,8 @@ class Ctx:
 
 def lean_obligations(ctx: Ctx, module, theorems):
     """Build the property module, audit the axioms of its theorems, scan the sources."""
+    if os.environ.get('VERIF_SUBRUN'):
+        return True          # a parallel sub-run of the thorough tier: the parent has built and audited everything
     ok, errors, out, dt = lake_build([module, 'Ndt.Driver.Main'])
     ctx.checker_cmd = 'cd lean && lake build %s Ndt.Driver.Main && lake env lean work/Audit_%s.lean (#print axioms)' % (module, ctx.pid)
     bad_decls = {}
@@ -363,6 +413,12 @@ def finish(ctx: Ctx, level='proof'):
         ctx.notes.append('%d returned arrays were kept (not copied) and re-examined at the end of the run: unchanged' % nk
                          if not any('aliased to internal state' in v.get('what', '') for v in ctx.violations) else
                          'a kept result changed after later calls')
+    sub = os.environ.get('VERIF_SUBRUN')
+    if sub:
+        json.dump({'violations': ctx.violations, 'mismatches': ctx.mismatches, 'engines': ctx.engines, 'known_hits': ctx.known_hits,
+                   'evaluations': ctx.search['evaluations'], 'nontrivial': len(ctx.search['nontrivial']), 'notes': ctx.notes, 'seed': ctx.seed},
+                  open(sub, 'w'), default=str)
+        return 0
     os.makedirs(os.path.join(VERIF, 'evidence'), exist_ok=True)
     os.makedirs(os.path.join(VERIF, 'replays', ctx.pid), exist_ok=True)
     for e, st in ctx.engines.items():
@@ -395,7 +451,7 @@ def finish(ctx: Ctx, level='proof'):
         rc = 1
     n_obl = len(ctx.obligations)
     n_ok = sum(1 for o in ctx.obligations if o['ok'])
-    nontriv = len(ctx.search['nontrivial'])
+    nontriv = len(ctx.search['nontrivial']) + ctx.search.get('extra_nontrivial', 0)
     ev = {
         'property_id': ctx.pid, 'tier': ctx.tier, 'seed': ctx.seed, 'level': level,
         'coverage': {
